@@ -1,7 +1,7 @@
 (* C04 — reported overhangs and fragments are true restriction fragments of the cutter.
    Statements only.  The reflective obligations over the kit and enzyme tables are in
    Props/C04_kits.v. *)
-From MV Require Import Base Regex RegexLemmas Shape ShapeLemmas Typing TypingLemmas ShapeTyping.
+From MV Require Import Base Regex RegexLemmas Shape ShapeLemmas Typing TypingLemmas ShapeTyping InnerCuts.
 
 (* the recogniser of the common shape is sound *)
 Theorem C04_parse : forall p sh, parse3 p = Some sh -> p = shape_pat sh.
@@ -62,6 +62,43 @@ Theorem C04_cuts : forall c sh s m,
     cut_at (cenz c) s (p1 pc + mstart m) /\ cut_at (cenz c) s (q3 pc + mstart m).
 Proof. exact frames_sound. Qed.
 Print Assumptions C04_cuts.
+
+(* no further cut strictly inside the target. For EVERY class of the common shape whose sites
+   flank the target (`flanking`: the site and `off` letters end the prefix, `off` letters and the
+   reverse site start the suffix — every kit module class but one, and the generic module class of
+   every enzyme, see C04_kits.v), any non-palindromic cutter, and EVERY record the class accepts
+   (well-formed or not, any rotation): in the matched stretch g0 = pre.g1.g2.g3.post, no occurrence
+   of the recognition site on either strand — wherever it sits in g0 — cuts strictly inside the
+   target g1.g2 = [p1, q3). (The screen `more than 3 fragments in the linear digest of g0` is what
+   makes this true: the two framing sites already account for two kept cuts.) *)
+Theorem C04_no_inner_cut : forall c sh s m,
+  cpat c = shape_pat sh ->
+  let e := cenz c in
+  frames (esite e) (rc_codes (esite e)) (eoff e) (eovh e) sh = true ->
+  flanking (esite e) (rc_codes (esite e)) (eoff e) sh = true ->
+  esite e <> rc_codes (esite e) -> 0 < length (esite e) ->
+  typing c s true = Valid m ->
+  exists pc, group m s 0 = Some (pieces_text pc) /\ pieces_ok sh pc /\
+    span m 1 = Some (p1 pc + mstart m, p2 pc + mstart m) /\
+    span m 2 = Some (p2 pc + mstart m, q3 pc + mstart m) /\
+    forall j, j < length (pieces_text pc) ->
+      (occurs_here (esite e) (skipn j (pieces_text pc)) = true ->
+         ~ (p1 pc < j + length (esite e) + eoff e < q3 pc)) /\
+      (occurs_here (rc_codes (esite e)) (skipn j (pieces_text pc)) = true ->
+         ~ (p1 pc + eoff e + eovh e < j < q3 pc + eoff e + eovh e)).
+Proof. exact no_inner_cut. Qed.
+Print Assumptions C04_no_inner_cut.
+
+(* sharpness: a BsaI module whose target carries a third site is refused (IllegalSite), and the
+   same plasmid with that site spoiled is accepted *)
+Example C04_inner_site_refused :
+  let e := E [cG;cG;cT;cC;cT;cC] 1 4 in
+  let c := C RModule e (module_structure e) in
+  let mk := map (fun x => L x true) in
+  let bad  := mk [cG;cG;cT;cC;cT;cC;cA; cA;cA;cT;cG; cG;cG;cT;cC;cT;cC;cA;cA;cA;cA;cA;cA;cA;cA; cG;cC;cT;cT; cT;cG;cA;cG;cA;cC;cC; cA;cT] in
+  let good := mk [cG;cG;cT;cC;cT;cC;cA; cA;cA;cT;cG; cG;cG;cT;cC;cA;cC;cA;cA;cA;cA;cA;cA;cA;cA; cG;cC;cT;cT; cT;cG;cA;cG;cA;cC;cC; cA;cT] in
+  typing c bad true = IllegalSite /\ is_valid c good true = true.
+Proof. vm_compute. split; reflexivity. Qed.
 
 (* a vector's placeholder is one contiguous stretch of the plasmid and, followed by the
    target, it is the circle read from the placeholder's first nucleotide: together they
